@@ -11,7 +11,7 @@ RULE = ("(a) peaks (tth in (0,180), eta, omega) x wavelength x wedge x chi x ome
         "[0, 2.4/lambda] with 15% inside the blind cone (|g_perp| <= 0.02|g|), a class with |g| > 2/lambda, g on the "
         "axis and g = 0, x wedge/chi on/off: validity flags against a closed-form Ewald reachability criterion and "
         "round trip of both solutions; (c) detector sets from C01's switch lattice x (tth<=60 deg, eta, omega, grain "
-        "position): projection onto the detector and back through the Python and the compiled route, and against the harness's own ray trace; (d) gv_general with a general unit axis and pre/post rotations: rotate_vectors / to_matrix / axis_from_matrix / k_to_g against Rodrigues matrices, g_to_k solutions against the Laue condition and the reachability criterion; non-trivial = "
+        "position): projection onto the detector and back through the Python and the compiled route, and against the harness's own ray trace; (both with keyword arguments and with the whole parameter dictionary, omegasign included, splatted in as columnfile and refinegrains do); (e) columnfile columns (fast and slow routes): ds = 2 sin(theta)/lambda and |g| = ds for the object's current parameters after update / in-place edit of wavelength, wedge, chi, omegasign, distance, centre, t_x / update, equal to what a fresh object computes, and updateGV reproducing the g columns; (d) gv_general with a general unit axis and pre/post rotations: rotate_vectors / to_matrix / axis_from_matrix / k_to_g against Rodrigues matrices, g_to_k solutions against the Laue condition and the reachability criterion; non-trivial = "
         "wedge!=0 and chi!=0, or a blind-cone / over-range vector in the batch, or t!=0 with a tilt; distinct = hash "
         "of the case")
 ASSUMPTIONS = ["g-vectors whose reachability measure |m| lies within 1e-9 of 1 (tangent to the Ewald sphere) may be "
@@ -267,6 +267,25 @@ def check_detector(case, rec=None):
             fails.append(fail("detector_roundtrip", "compute_tth_eta(compute_xyz_from_tth_eta(tth,eta)) differs: "
                               "dtth %.3g deta %.3g; pars %s" % (e1, e2, {k: round(v, 5) for k, v in p.items()}),
                               fn="compute_xyz_from_tth_eta"))
+    # the callers' convention (columnfile, refinegrains, fitting): omega already multiplied by omegasign and the whole
+    # parameter dictionary - omegasign, wavelength and all - splatted into both functions
+    pk = dict(p)
+    ok, r3 = guard(transform.compute_xyz_from_tth_eta, tth, eta, om, **pk)
+    if not ok:
+        fails.append(exc_failure("compute_xyz_from_tth_eta(**parameters)", r3))
+    else:
+        ok, r4 = guard(transform.compute_tth_eta, [np.asarray(r3[1], float), np.asarray(r3[0], float)], omega=om, **pk)
+        if not ok:
+            fails.append(exc_failure("compute_tth_eta(**parameters)", r4))
+        else:
+            e1 = np.abs(np.asarray(r4[0]) - tth).max()
+            e2 = np.abs(O.eta_diff(r4[1], eta) * np.sin(np.radians(tth))).max()
+            e3 = max(np.abs(np.asarray(r3[0], float) - fc).max(), np.abs(np.asarray(r3[1], float) - sc).max())
+            if not (e1 <= 1e-8 and e2 <= 1e-8 and e3 <= 1e-6):
+                fails.append(fail("detector_roundtrip", "with the whole parameter dictionary passed (as columnfile and "
+                                  "refinegrains do): compute_tth_eta(compute_xyz_from_tth_eta(tth,eta)) differs: dtth %.3g "
+                                  "deta %.3g, detector position differs from the keyword call by %.3g px; pars %s" %
+                                  (e1, e2, e3, {k: round(v, 5) for k, v in p.items()}), fn="parameter_dict"))
     # the compiled route must invert the projection as well (omega as observed = omega_eff / omegasign)
     ok, ct = guard(transform.Ctransform, dict(p))
     if ok:
@@ -432,6 +451,86 @@ def check_axis(case, rec=None):
     return fails
 
 
+# ------------------------------------------------------------------ (e) the columnfile's ds/tth/g columns
+
+def check_columns(case, rec=None):
+    """Bragg's law on the columns a columnfile computes, and independence of the columns from the object's past:
+    update, edit parameters in place, update again must leave what a fresh object computes from the final parameters."""
+    from ImageD11 import columnfile, parameters
+    p, sc, fc, om = c01.params_from(case["index"], case["mseed"])
+    rng = np.random.RandomState((case["mseed"] * 104729 + case["index"]) % (2 ** 32))
+    edits = {"wavelength": p["wavelength"] * rng.uniform(0.7, 1.4), "wedge": p["wedge"] + rng.uniform(-5, 5),
+             "chi": p["chi"] + rng.uniform(-5, 5), "omegasign": -p["omegasign"],
+             "distance": p["distance"] * rng.uniform(0.8, 1.2), "y_center": p["y_center"] + rng.uniform(-50, 50),
+             "t_x": p["t_x"] + rng.uniform(-100, 100)}
+    names = [k for k in sorted(edits) if rng.random_sample() < 0.5] or ["wavelength"]
+    how = case.get("how", "set")
+    fails = []
+
+    def mk(pars):
+        cf = columnfile.colfile_from_dict({"sc": np.asarray(sc, float).copy(), "fc": np.asarray(fc, float).copy(),
+                                           "omega": np.asarray(om, float).copy()})
+        cf.parameters = parameters.parameters(**pars)
+        return cf
+
+    def laws(cf, pars, label):
+        tth, ds = np.asarray(cf.tth, float), np.asarray(cf.ds, float)
+        g = np.array([cf.gx, cf.gy, cf.gz], float)
+        tol = 1e-10 / pars["wavelength"]
+        e1 = np.abs(ds - 2 * np.sin(np.radians(tth) / 2) / pars["wavelength"]).max()
+        e2 = np.abs(np.sqrt((g * g).sum(axis=0)) - ds).max()
+        if not (e1 <= tol and e2 <= tol):
+            fails.append(fail("columns", "%s: ds column differs from 2 sin(theta)/lambda of the object's current "
+                              "parameters by %.3g, |g| from ds by %.3g (edited %s)" % (label, e1, e2, names),
+                              what="bragg"))
+
+    for fast in (True, False):
+        label = "columnfile.updateGeometry(fast=%s)" % fast
+        a = mk(p)
+        ok, e = guard(a.updateGeometry, fast=fast)
+        if not ok:
+            fails.append(exc_failure(label, e))
+            continue
+        laws(a, p, label + " first call")
+        p2 = dict(p)
+        for k in names:
+            p2[k] = edits[k]
+            if how == "set":
+                a.parameters.set(k, edits[k])
+            else:
+                a.parameters.parameters[k] = edits[k]
+        ok, e = guard(a.updateGeometry, fast=fast)
+        if not ok:
+            fails.append(exc_failure(label + " after an in-place parameter edit", e))
+            continue
+        laws(a, p2, label + " after an in-place parameter edit")
+        b = mk(p2)
+        ok, e = guard(b.updateGeometry, fast=fast)
+        if not ok:
+            fails.append(exc_failure(label, e))
+            continue
+        for col in ("xl", "yl", "zl", "tth", "eta", "ds", "gx", "gy", "gz"):
+            d = np.abs(np.asarray(a.getcolumn(col), float) - np.asarray(b.getcolumn(col), float)).max()
+            if not d <= 1e-9 * (1 + np.abs(np.asarray(b.getcolumn(col), float)).max()):
+                fails.append(fail("columns", "%s: column %s after update / edit %s in place / update differs from a "
+                                  "fresh object with the same final parameters by %.3g" % (label, col, names, d),
+                                  what="history"))
+                break
+        # updateGV (g-vectors only, straight from the pixel positions) must reproduce the g columns
+        gbefore = np.array([a.gx, a.gy, a.gz], float)
+        ok, e = guard(a.updateGV, fast=fast)
+        if ok:
+            d = np.abs(np.array([a.gx, a.gy, a.gz], float) - gbefore).max()
+            if not d <= 1e-9 / p2["wavelength"]:
+                fails.append(fail("columns", "columnfile.updateGV(fast=%s) changes the g columns computed by "
+                                  "updateGeometry by %.3g (edited %s)" % (fast, d, names), what="updateGV"))
+        else:
+            fails.append(exc_failure("columnfile.updateGV(fast=%s)" % fast, e))
+    if rec is not None:
+        rec.case(case, len(names) >= 2, ["columns"] + ["edit:" + k for k in names])
+    return fails
+
+
 def run_shard(rec):
     quick = rec.tier == "quick"
     k = 4 if quick else 30
@@ -445,7 +544,11 @@ def run_shard(rec):
     hyp_run(rec, "detector", st.builds(lambda i, m: dict(index=i, mseed=m), st.integers(0, 16383),
                                        st.integers(0, 2 ** 20)),
             lambda c: check_detector(c, rec), max_examples=100 * k)
+    hyp_run(rec, "columns", st.builds(lambda i, m, h: dict(index=i, mseed=m, how=h), st.integers(0, 16383),
+                                      st.integers(0, 2 ** 20), st.sampled_from(["set", "dict"])),
+            lambda c: check_columns(c, rec), max_examples=60 * k)
 
 
 def replay(sub, case, rec):
-    return {"uncompute": check_g, "bragg": check_peaks, "detector": check_detector, "axis": check_axis}[sub](case, rec)
+    return {"uncompute": check_g, "bragg": check_peaks, "detector": check_detector, "axis": check_axis,
+            "columns": check_columns}[sub](case, rec)
